@@ -96,6 +96,21 @@ def step (σ : St) (op obs : List String) : St × List Msg :=
       let fs := (rs.scache.map Prod.snd).filter fun x => !x.resolvedAt now
       fs.any fun x => fs.any fun y => x.labels != y.labels && rs.rule.eqKey x.labels == rs.rule.eqKey y.labels
     (σ', expectEq "put.dump" (dumpStore store') dmp ++ t ++ tags ++ (if share then [.tag "share-eq"] else []))
+  | ["burst", now, n, ls, st, en, to], [dmp] =>
+    -- one Put call: n new filler alerts, then an update of a known alert; the provider → inhibitor path is lossless,
+    -- so the model processes every one of them in order (the following `mutes` lines carry the verdicts)
+    let nowS := now
+    let now := toInt! now
+    let (σ, tags) := advance σ now []
+    let fillers : List Alert := (List.range (toNat! n)).map fun i =>
+      { labels := [("alertname", "F"), ("n", s!"{nowS}x{i}")], startsAt := now, endsAt := now + 600000000000, updatedAt := now, timeout := false }
+    let a : Alert := { labels := parseLabels ls, startsAt := toInt! st, endsAt := toInt! en, updatedAt := now, timeout := to = "1" }
+    let known := (lookup σ.store a.labels).isSome
+    let (store', st', leg') := (fillers ++ [a]).foldl (fun (acc : Store × State × State) x =>
+      let v := putValue now acc.1 x
+      (acc.1.putAlert now x, process acc.2.1 v, process acc.2.2 v)) (σ.store, σ.st, σ.leg)
+    ({ σ with store := store', st := st', leg := leg', implDump := parseAlerts dmp },
+      expectEq "burst.dump" (dumpStore store') dmp ++ tags ++ [.tag (if known then "burst:update-of-known" else "burst:new")])
   | ["wait", now], [dmp] =>
     let now := toInt! now
     let (σ, tags) := advance σ now []
